@@ -1,9 +1,18 @@
 \* C19 model configuration template; @@X@@ are substituted by harness/drivers/c19 (cfgJob there).
-\* Bounds used by the check (quick tier unless noted):
-\*   conc3   ProcsC1 = {p1, p3} ProcsC2 = {p2}  1 name     1 call per process (thorough: 2)  1 lookup process
-\*   conc2   ProcsC1 = {p1}     ProcsC2 = {p2}  1-2 names  <=2 calls per process  <=1 failing write
-\*           (p2 creates through the command handler: pre-check + expiry update)
-\*   seq     sequential histories with Update / expiry, legacy mappings on this / another node
+\* Configurations used by the check (p2 = client c2 creates through the command handler in all of them;
+\* every job is exhaustive for its bounds, VIEW = all variables but hist, and - with Emit - prints one
+\* behaviour per transition of the state graph):
+\*   quick    gen:conc3     ProcsC1 = {p1, p3} ProcsC2 = {p2}  n1  1 call/process  1 lookup process  mapping 1 pre-exists
+\*            gen:conc2f    ProcsC1 = {p1} ProcsC2 = {p2}      n1  2 calls/process 1 lookup process  1 failing write
+\*            gen:seq       Serial, Create/Delete/Update, 2 calls/process, 2 lookups, 1 legacy mapping (here/other node)
+\*            gen:spell     Serial, Create/Delete, 2 calls/process, 2 lookups, all six Host / subdomain spellings
+\*            legacy:conc3, legacy:seq   Fix = FALSE, CaseFold = FALSE (the code before the two repairs), no invariants
+\*   thorough + gen:conc3f (1 failing write), gen:conc2:2names (n1, n2), gen:seqleg (2 legacy mappings, 3 lookups),
+\*            gen:seqf (Serial + failing write), legacy:conc2f
+\*            mc:guess (Guess = TRUE), mc:conc3x2 (2 calls/process, no lookup process), mc:conc2:2names (+ failing
+\*            write), mc:seq:3ops, mc:spell:3ops
+\* Invariants: OneOwner RouteOK OwnerOnly Consistent Claimable NoIndexTheft; configurations with legacy mappings
+\* use OneOwnerX / RouteOKX (the two legacy deviations are recorded known findings and must not hide other routes).
 CONSTANTS
   ProcsC1 = @@P1@@
   ProcsC2 = @@P2@@
@@ -19,6 +28,8 @@ CONSTANTS
   Serial = @@SEQ@@
   MaxLegacy = @@MAXLEG@@
   Fix = @@FIX@@
+  Spell = @@SPELL@@
+  CaseFold = @@FOLD@@
   Emit = @@EMIT@@
 INIT Init
 NEXT Next
